@@ -1977,6 +1977,9 @@ void XMLDateTime::serialize(XSerializeEngine& serEng)
         serEng<<(unsigned long)fEnd;
 
         serEng.writeString(fBuffer, fBufferMaxLen, XSerializeEngine::toWriteBufferLen);
+
+        serEng<<fMilliSecond;
+        serEng<<fHasTime;
     }
     else
     {
@@ -1995,6 +1998,9 @@ void XMLDateTime::serialize(XSerializeEngine& serEng)
 
         XMLSize_t dataLen = 0;
         serEng.readString(fBuffer, fBufferMaxLen, dataLen ,XSerializeEngine::toReadBufferLen);
+
+        serEng>>fMilliSecond;
+        serEng>>fHasTime;
 
     }
 
